@@ -18,7 +18,8 @@ PLATFORMS = [
      "implementation_name": "pypy"},
 ]
 # "linux" is also a value of sys_platform: an extra and a string variable sharing a literal must not share anything else
-EXTRA_SETS: list[list[str]] = [[], ["a"], ["foo-bar"], ["a", "foo-bar"], ["b"], ["inotify", "a"], ["linux", "a"]]
+EXTRA_SETS: list[list[str]] = [[], ["a"], ["foo-bar"], ["a", "foo-bar"], ["b"], ["inotify", "a"], ["linux", "a"],
+                               ["a--b"], ["A_B", "foo-bar"]]     # other spellings of one normalised name (PEP 685), runs of separators
 
 PY2 = ["2.7", "3.6", "3.7", "3.8", "3.9", "3.10", "3.11", "3.12", "4.0"]
 PY3 = ["3.6.15", "3.7.0", "3.8.0", "3.8.10", "3.9.1", "3.10.0", "3.10.12", "3.11.4", "3.12.0"]
@@ -36,7 +37,7 @@ ALIASES = {"os_name": "os.name", "sys_platform": "sys.platform", "platform_machi
            "platform_python_implementation": "platform.python_implementation", "platform_version": "platform.version"}
 SUBSTR = {"platform_release": ["10", "5.1", "tegra", "23"], "platform_version": ["Debian", "tegra", "SMP", "19045"],
           "platform_machine": ["64", "arm", "x86"], "sys_platform": ["win", "lin", "x"]}
-EXTRAS = ["a", "b", "foo-bar", "Foo_Bar", "foo.bar", "c", "inotify", "linux"]
+EXTRAS = ["a", "b", "foo-bar", "Foo_Bar", "foo.bar", "c", "inotify", "linux", "a-b", "a--b", "A_B", "a.b", "foo--bar", "7--zip"]
 REL = ["5.10.0", "10", "23.1.0", "5.4", "6.0.0", "22"]
 
 
